@@ -13,6 +13,7 @@ import (
 	"strconv"
 	"time"
 
+	"github.com/lni/dragonboat/v4/config"
 	"github.com/lni/dragonboat/v4/logger"
 	hooks "github.com/lni/dragonboat/v4/verifhooks/c13"
 	"verif/harness/vh"
@@ -247,6 +248,109 @@ func genFrames(r *vh.Rand, w *vh.LineWriter, next int, tier string) int {
 		emit("FRAME 0 64 other 7dae%s", vh.Hex(f[2:]))
 	}
 	return next
+}
+
+// ---- configuration dimension: the checksum-off flag is derived by the real
+// NewTCPTransport from MutualTLS x {CAFile, CertFile, KeyFile} ----
+
+func nhConfig(mtls, ca, cert, key bool) config.NodeHostConfig {
+	c := config.NodeHostConfig{MutualTLS: mtls}
+	if ca {
+		c.CAFile = "/etc/dragonboat/ca.pem"
+	}
+	if cert {
+		c.CertFile = "/etc/dragonboat/node.pem"
+	}
+	if key {
+		c.KeyFile = "/etc/dragonboat/node.key"
+	}
+	return c
+}
+
+func cfgEncrypted(mtls, ca, cert, key bool) (enc bool, ok bool) {
+	p := vh.Catch(func() { enc = hooks.TransportEncrypted(nhConfig(mtls, ca, cert, key)) })
+	return enc, p == ""
+}
+
+func genCfgFrames(r *vh.Rand, w *vh.LineWriter, next int, tier string) int {
+	nflip := 24
+	if tier == "thorough" {
+		nflip = 400
+	}
+	for cfg := 0; cfg < 16; cfg++ {
+		mtls, ca, cert, key := cfg&8 != 0, cfg&4 != 0, cfg&2 != 0, cfg&1 != 0
+		enc, ok := cfgEncrypted(mtls, ca, cert, key)
+		if !ok {
+			continue
+		}
+		payload := r.Bytes(8 + r.Intn(40))
+		f := realFrame([]uint16{100, 200}[cfg%2], payload, enc)
+		if f == nil {
+			continue
+		}
+		rb := recvBufChoices[r.Intn(len(recvBufChoices))]
+		emit := func(tag string, s []byte) {
+			w.Printf("%d CFGFRAME %d %d %d %d %d %s %s\n", next, b01(mtls), b01(ca), b01(cert), b01(key), rb, tag, vh.Hex(s))
+			next++
+		}
+		emit("valid", f)
+		for j := 0; j < nflip; j++ {
+			m := append([]byte{}, f...)
+			bit := 20*8 + r.Intn((len(f)-20)*8)
+			m[bit/8] ^= 1 << uint(bit%8)
+			emit("flipP", m)
+		}
+		for j := 0; j < 6; j++ {
+			m := append([]byte{}, f...)
+			bit := r.Intn(20 * 8)
+			m[bit/8] ^= 1 << uint(bit%8)
+			emit("flipH", m)
+		}
+		for j := 0; j < 4; j++ {
+			emit("trunc", f[:20+r.Intn(len(f)-20)])
+		}
+		// a payload replaced wholesale, header untouched
+		m := append(append([]byte{}, f[:20]...), r.Bytes(len(f)-20)...)
+		emit("flipP", m)
+	}
+	return next
+}
+
+func runCfgFrame(id string, f []string, line string, obs *vh.LineWriter, st *vh.Stats) {
+	mtls, ca, cert, key := f[1] == "1", f[2] == "1", f[3] == "1", f[4] == "1"
+	rb, err := strconv.ParseUint(f[5], 10, 64)
+	must(err)
+	tag, s := f[6], vh.UnHex(f[7])
+	enc, ok := cfgEncrypted(mtls, ca, cert, key)
+	if !ok {
+		obs.Printf("%s CFGFRAME panic\n", id)
+		st.Violation(id, "NewTCPTransport panicked")
+		return
+	}
+	rd, _ := readFrame(s, enc, rb)
+	obs.Printf("%s CFGFRAME ENC %d %s\n", id, b01(enc), rd)
+	delivered := len(rd) >= 2 && rd[:2] == "ok"
+	cfg := fmt.Sprintf("MutualTLS=%v CAFile=%v CertFile=%v KeyFile=%v", mtls, ca, cert, key)
+	switch tag {
+	case "valid":
+		if !delivered {
+			st.Violation(id, "valid frame not delivered ("+cfg+"): "+rd)
+		}
+	case "flipH", "trunc":
+		if delivered {
+			st.Violation(id, "frame with corrupted header / truncated frame delivered ("+cfg+")")
+		}
+	case "flipP":
+		// only real (mutual) TLS may leave payload integrity to the transport
+		if delivered && !mtls {
+			st.Violation(id, "frame with corrupted payload delivered over a connection without TLS ("+cfg+"; transport.encrypted="+strconv.FormatBool(enc)+")")
+		}
+	}
+	if enc && !mtls {
+		st.Violation(id, "payload checksum switched off although MutualTLS is false ("+cfg+")")
+	}
+	st.Count(fmt.Sprintf("cfgframe.mtls=%d.files=%d%d%d.%s.%s", b01(mtls), b01(ca), b01(cert), b01(key), tag, rd[:2]))
+	st.Case(line, true, "")
 }
 
 func showFrame(kind string, m uint16, sz uint64, crc uint32, p []byte, rest int) string {
